@@ -60,7 +60,15 @@ class Context:
         This method can be overridden by subclasses to save specific attributes.
         """
         try:
-            self.last_results = self.atoms.calc.results  # type: ignore[try-attr]
+            results = self.atoms.calc.results  # type: ignore[try-attr]
+
+            # calculators such as ASE's EMT write their arrays into one persistent
+            # buffer: keep copies, or the saved results change with the next trial
+            for key, value in results.items():
+                if isinstance(value, np.ndarray):
+                    results[key] = value.copy()
+
+            self.last_results = results
         except AttributeError:
             warn(
                 "Atoms object does not have calculator attached, or does not support the `results` attribute",
